@@ -6,6 +6,7 @@ import PhyVerif.Driver.C01
 import PhyVerif.Driver.C19
 import PhyVerif.Driver.C20
 import PhyVerif.Driver.C17
+import PhyVerif.Driver.C02
 open Lean PhyVerif.Driver
 
 def dispatch (j : Json) : R Json := do
@@ -19,6 +20,7 @@ def dispatch (j : Json) : R Json := do
   | "C19" => runC19 op j
   | "C20" => runC20 op j
   | "C17" => runC17 op j
+  | "C02" => runC02 op j
   | _ => .error s!"unknown property {p}"
 
 def handle (line : String) : String :=
